@@ -22,7 +22,8 @@ Bit == {0, 1}
 Pow2(k) == IF k = 0 THEN 1 ELSE 2 ^ k
 
 \* the low k bits of v, most significant first (v >= 0)
-LowBits(v, k) == [i \in 1..k |-> (v \div Pow2(k - i)) % 2]
+\* bit k-i of v (two's complement, arithmetic shift): values are 32-bit here, so every position from 31 upwards shows the sign
+LowBits(v, k) == [i \in 1..k |-> IF k - i >= 31 THEN (IF v < 0 THEN 1 ELSE 0) ELSE (v \div Pow2(k - i)) % 2]
 
 \* the sequence packed eight bits per byte, MSB first, zero padded at the end
 BitAt(s, i) == IF i <= Len(s) THEN s[i] ELSE 0
